@@ -251,6 +251,9 @@ pub struct Settings {
     pub args_override_self: bool,
     #[serde(skip_serializing_if = "is_default")]
     pub dont_delimit_trailing_values: bool,
+    /// infer_long_args / infer_subcommands / args_override_self / dont_delimit_trailing_values of this level are
+    /// the values in effect through an ancestor and are not set on this command itself
+    pub inherit_globals: bool,
     #[serde(skip_serializing_if = "is_default")]
     pub disable_help_flag: bool,
     #[serde(skip_serializing_if = "is_default")]
@@ -603,14 +606,10 @@ impl CmdSpec {
             .subcommand_required(s.subcommand_required)
             .arg_required_else_help(s.arg_required_else_help)
             .allow_missing_positional(s.allow_missing_positional)
-            .infer_long_args(s.infer_long_args)
-            .infer_subcommands(s.infer_subcommands)
             .ignore_errors(s.ignore_errors)
             .multicall(s.multicall)
             .no_binary_name(s.no_binary_name)
             .allow_external_subcommands(s.allow_external_subcommands)
-            .args_override_self(s.args_override_self)
-            .dont_delimit_trailing_values(s.dont_delimit_trailing_values)
             .disable_help_flag(s.disable_help_flag)
             .disable_help_subcommand(s.disable_help_subcommand)
             .disable_version_flag(s.disable_version_flag)
@@ -621,6 +620,15 @@ impl CmdSpec {
             .dont_collapse_args_in_usage(s.dont_collapse_args_in_usage)
             .disable_colored_help(s.disable_colored_help)
             .help_expected(s.help_expected);
+        if !s.inherit_globals {
+            // (with inherit_globals the description states what is in effect through an ancestor; the definition
+            // relies on the library's propagation of global settings)
+            c = c
+                .infer_long_args(s.infer_long_args)
+                .infer_subcommands(s.infer_subcommands)
+                .args_override_self(s.args_override_self)
+                .dont_delimit_trailing_values(s.dont_delimit_trailing_values);
+        }
         if s.allow_external_subcommands && s.external_os {
             c = c.external_subcommand_value_parser(clap::value_parser!(std::ffi::OsString));
         }
